@@ -312,3 +312,98 @@ func TestC11_RoundTrips(t *testing.T) {
 	})
 	col("C11").Completed("TestC11_RoundTrips")
 }
+
+// TestC11_StaleBytes: the second document's strings are prefixes / extensions of what the previous Serialize call left
+// at the same positions of the Serializer's string buffer. A lookup in the deduplication table must never match bytes
+// that belong to an earlier call, even when the two strings share a hash bucket (16 384 buckets; with thousands of
+// (P, P+T) pairs per document a few colliding pairs occur in every run, whatever the process-random hash seed is).
+type c11StaleCase struct {
+	Pairs int    `json:"pairs"`
+	P     int    `json:"p"`
+	T     int    `json:"t"`
+	Seed  uint64 `json:"seed"`
+	Mode  int    `json:"mode"`
+}
+
+func c11StaleCheck(c c11StaleCase) error {
+	r := &prng{s: c.Seed | 1}
+	letters := "abcdefghijklmnopqrstuvwxyz0123456789"
+	word := func(n int) string {
+		b := make([]byte, n)
+		for i := range b {
+			b[i] = letters[r.intn(len(letters))]
+		}
+		return string(b)
+	}
+	p, tl := c.P, c.T
+	if p < 6 {
+		p = 6
+	}
+	if tl < 1 {
+		tl = 1
+	}
+	var ps, ls []string
+	var layout strings.Builder
+	for j := 0; j < c.Pairs; j++ {
+		pj := fmt.Sprintf("%05d", j) + word(p-5)
+		lj := pj + word(tl)
+		ps, ls = append(ps, pj), append(ls, lj)
+		// layout of document B in the string buffer: P_j | L_j ; document A leaves L_j where P_j will be written
+		layout.WriteString(lj)
+		layout.WriteString(word(p))
+	}
+	docA := `["` + layout.String() + `"]`
+	var b strings.Builder
+	b.WriteByte('[')
+	for j := range ps {
+		if j > 0 {
+			b.WriteByte(',')
+		}
+		b.WriteString(`"` + ps[j] + `","` + ls[j] + `"`)
+	}
+	b.WriteByte(']')
+	docB := b.String()
+	pa, err := simdjson.Parse([]byte(docA), nil)
+	if err != nil {
+		return bugf("%v", err)
+	}
+	pb, err := simdjson.Parse([]byte(docB), nil)
+	if err != nil {
+		return bugf("%v", err)
+	}
+	s := simdjson.NewSerializer()
+	s.CompressMode(simdjson.CompressMode(c.Mode % 4))
+	_ = s.Serialize(nil, *pa)
+	blob := s.Serialize(nil, *pb)
+	out, err := simdjson.NewSerializer().Deserialize(blob, nil)
+	if err != nil {
+		return fmt.Errorf("second blob written by a reused Serializer cannot be read: %v", err)
+	}
+	got, err := stringsInOrder(out)
+	if err != nil {
+		return err
+	}
+	if len(got) != 2*len(ps) {
+		return fmt.Errorf("%d strings after the round trip, want %d", len(got), 2*len(ps))
+	}
+	for j := range ps {
+		if string(got[2*j]) != ps[j] || string(got[2*j+1]) != ls[j] {
+			return fmt.Errorf("pair %d comes back as %q, %q; want %q, %q (the Serializer had processed another document before)", j, got[2*j], got[2*j+1], ps[j], ls[j])
+		}
+	}
+	return nil
+}
+
+var c11StaleRun = register("C11", "stale-bytes", c11StaleCheck)
+
+func TestC11_StaleBytes(t *testing.T) {
+	r := newPRNG("C11_StaleBytes")
+	n := nCases(160, 4000)
+	for i := 0; i < n; i++ {
+		c := c11StaleCase{Pairs: 3000 + r.intn(3000), P: 6 + r.intn(10), T: 1 + r.intn(8), Seed: r.u64(), Mode: r.intn(4)}
+		c11StaleRun(t, c)
+		raw, _ := json.Marshal(c)
+		col("C11").Eval(true, evidHash(raw), "shape:stale-bytes-after-reuse", fmt.Sprintf("modes:%d->fresh", c.Mode))
+	}
+	col("C11").Completed("TestC11_StaleBytes")
+}
